@@ -101,9 +101,9 @@ P = {
    "state identity = abstract state (sound because every transition proves the real observations are a function of it); guarded by an un-deduplicated enumeration of all operation sequences to depth 3-4 and by BFS/DFS unique-state agreement",
    "DESIGN.md §5 C18"),
  "C20": (True, "vsched", "model_checking",
-   "stateless model checking of schedules: preemption-bounded (and, for the smallest harness, unbounded) DFS with prefix replay over all interleavings of 2-3 real threads at hooked scheduling points (cache-lock acquire/release, inside the critical section, between template elements, around API calls); each execution compared with the sequential baseline",
-   "For six harnesses on shared Parser/Template/PartialStore objects built with the lazy compiler, every interleaving up to the preemption bound is executed on the real code: every call must return exactly its sequential result, no interleaving may deadlock or panic, and a sequential re-run on the used objects must still equal the baseline. The first and every failing schedule are replayed twice (determinism); a thread not reaching its next point in 10 s, or a replay divergence, is a machinery failure, never a verdict.",
-   "sequentially consistent interleavings only; scheduling points limited to the hook shim and the public plugin API; an auxiliary free-running stress run is labelled sampling and not claimed as coverage",
+   "stateless model checking of schedules: preemption-bounded (and, for the smallest harness, unbounded) DFS with prefix replay over all interleavings of 2-3 real threads at hooked scheduling points (acquire/release of every Mutex/RwLock and every atomic operation of the crates - the check links a copy of the working tree whose std::sync paths are redirected to the verif-hooks shim - plus inside the critical section, between template elements, inside filter chains, around API calls); each execution compared with the sequential baseline",
+   "For nine harnesses on shared Parser/Template/PartialStore objects built with the lazy compiler, every interleaving up to the preemption bound is executed on the real code: every call must return exactly its sequential result, no interleaving may deadlock or panic, and a sequential re-run on the used objects must still equal the baseline. The first and every failing schedule are replayed twice (determinism); a thread not reaching its next point in 10 s, or a replay divergence, is a machinery failure, never a verdict.",
+   "sequentially consistent interleavings only; scheduling points = every std::sync Mutex/RwLock/atomic of the three crates (textual redirection, reported in the evidence; falls back to the committed lazy-cache hook if the redirected copy does not compile) and the public plugin API; Arc/LazyLock/thread_local are not points; an auxiliary free-running stress run is labelled sampling and not claimed as coverage",
    "DESIGN.md §5 C20"),
 }
 ORDER = ["C%02d" % i for i in range(1, 21)]
@@ -134,10 +134,10 @@ def main():
         hooks_commits = [l.strip() for l in open(hc) if l.strip()]
     m = {
         "version": 1,
-        "setup_cmd": "cd /verif/harness && CARGO_NET_OFFLINE=true cargo build --offline --profile verif",
+        "setup_cmd": "cd /verif/harness && CARGO_NET_OFFLINE=true cargo build --offline --profile verif && /verif/tools/build_sched.sh",
         "hooks": {
             "guard": "cargo feature `verif-hooks` of liquid-core (off by default)",
-            "enable": "only harness/lqv-sched depends on liquid-core with features=[\"verif-hooks\"]; every other check builds the crates exactly as a user would",
+            "enable": "only harness/sched/lqv-sched (C20) enables features=[\"verif-hooks\"], on an instrumented copy of /repo's working tree (tools/instrument.py redirects std::sync paths to liquid_core::verif_hooks::sync); every other check builds the crates exactly as a user would",
             "baseline_off_cmd": "cd /repo && cargo nextest run --workspace --no-fail-fast --test-threads 8 --offline || cargo test --workspace --no-fail-fast --offline",
             "source_commits": hooks_commits,
             "add_only": True,
@@ -147,7 +147,7 @@ def main():
             {"name": "progen+refliquid", "path": "harness/lqv-core/src/ast.rs", "serves_properties": ["C03","C04","C05","C06","C07","C08","C09","C10","C19"], "kind_free_text": "exhaustive program generator + independent reference interpreter"},
             {"name": "faultsink", "path": "harness/lqv-core/src/props/c10.rs", "serves_properties": ["C10"], "kind_free_text": "write-fault enumeration over every write call of a run"},
             {"name": "stackmc", "path": "harness/lqv-core/src/props/c18.rs", "serves_properties": ["C18"], "kind_free_text": "stateright explicit-state model of the runtime stack with per-transition replay on the real frame types"},
-            {"name": "vsched", "path": "harness/lqv-sched/src/main.rs", "serves_properties": ["C20"], "kind_free_text": "stateless preemption-bounded DFS over interleavings of real threads at hooked scheduling points"},
+            {"name": "vsched", "path": "harness/sched/lqv-sched/src/main.rs", "serves_properties": ["C20"], "kind_free_text": "stateless preemption-bounded DFS over interleavings of real threads at hooked scheduling points"},
             {"name": "laws", "path": "harness/lqv-core/src/props/c11.rs", "serves_properties": ["C11","C12"], "kind_free_text": "exhaustive pair/triple law checker over a closed value pool, cross-process table comparison"},
         ],
         "checks": checks,
